@@ -53,7 +53,7 @@ def qualified_names():
             m = _re.match(r'\s*(?:pub )?fn (\w+)\(', line)
             if m:
                 out.setdefault(m.group(1), prefix + ('::' + cur_mod if cur_mod else '') + '::' + m.group(1))
-            m = _re.match(r'\s*(?:token_harness|glue_harness|parse_harness|parse_glue_harness)!\((\w+),', line)
+            m = _re.match(r'\s*(?:token_harness|glue_harness|parse_harness|parse_glue_harness|write_u32_harness)!\((\w+),', line)
             if m:
                 out.setdefault(m.group(1), prefix + '::' + m.group(1))
     return out
@@ -185,6 +185,8 @@ def run(repo, harnesses, workdir, tier, seed, jobs=None, concrete=True):
         out['harnesses'].append(rec)
         for a in h.get('assumes', []):
             out['trusted'].append('kani harness %s: %s' % (h['name'], a))
+    out['trusted'].append('kani harnesses in format.rs: error-message construction (util::try_format, StrExt::try_to_string) replaced by an empty string - '
+                          'message texts are outside every property; allocation-failure paths are not explored')
     shutil.rmtree(crate, ignore_errors=True)
     return out
 
